@@ -25,7 +25,7 @@ TECHNIQUE = ("fault enumeration in virtual time: ALL sequences of per-attempt ou
              "oracle = a model of attempts; plus a real-socket tier on 127.0.0.1 (fd accounting via /proc/self/fd)")
 RULE = ("virtual tier: case = retries 1..3 (4 in thorough) x timeout {0.5, 1, 2.5, 6} x one outcome per potential attempt from "
         "{reply at 0.4T, empty reply at 0.3T, nothing, reply at 1.5T, two replies at 0.2T/0.6T, ICMP error at 0.5T, connection lost at "
-        "0.5T} (all sequences), called directly or through Client.get with configured timeout / retries; loopback tier: scripted "
+        "0.5T} (all sequences), called directly or through Client.get with configured timeout / retries; generated cases with retries 1..6 and event times at {0.001 .. 0.999, 1.001, 1.5, 3} x timeout; loopback tier: scripted "
         "UDP responder and closed ports on 127.0.0.1; non-trivial = >= 2 attempts and at least one non-reply outcome; distinct = "
         "the tuple itself")
 ASSUMPTIONS = [
@@ -41,21 +41,32 @@ REPLY = b"\x30\x03REPLY-BYTES\x00\xff"
 OID = (1, 3, 6, 1, 2, 1, 1, 5, 0)
 
 
-def script_for(kind, T):
+def script_for(kind, T, fr=None):
+    """fr: optional fraction of the timeout at which the event happens (generated cases); fr >= 1 means 'too late'"""
+    if fr is not None:
+        if kind in ("reply", "empty", "late"):
+            return dict(kind=("empty" if kind == "empty" else "reply") if fr < 1 else "late", d=fr * T, empty=(kind == "empty"))
+        if kind == "dup":
+            return dict(kind="dup" if fr < 1 else "late", d=fr * T, d2=(fr + 0.3) * T)
+        if kind in ("icmp", "lost"):
+            return dict(kind=kind if fr < 1 else "none", d=fr * T, errno=111 if kind == "icmp" else 101)
+        return dict(kind="none")
     return {"reply": dict(kind="reply", d=0.4 * T), "empty": dict(kind="empty", d=0.3 * T), "none": dict(kind="none"),
             "late": dict(kind="late", d=1.5 * T), "dup": dict(kind="dup", d=0.2 * T, d2=0.6 * T),
             "icmp": dict(kind="icmp", d=0.5 * T, errno=111), "lost": dict(kind="lost", d=0.5 * T, errno=101)}[kind]
 
 
-def acceptable(retries, T, kinds, reply):
+def acceptable(retries, T, kinds, reply, frs=None):
     acc = []
 
     def go(k, t0):
         if k == retries:
             acc.append(("timeout", None, t0))
             return
-        kind = kinds[k]
-        s = script_for(kind, T)
+        s = script_for(kinds[k], T, frs[k] if frs else None)
+        kind = s["kind"]
+        if kind == "reply" and s.get("empty"):
+            kind = "empty"
         if kind in ("reply", "dup"):
             acc.append(("ok", reply, t0 + s["d"]))
         elif kind == "empty":
@@ -73,8 +84,12 @@ def acceptable(retries, T, kinds, reply):
 
 def run_virtual_case(case) -> Result:
     retries, T, kinds, via = case["retries"], case["timeout"], case["kinds"], case.get("via", "send_udp")
-    scripts = [script_for(k, T) for k in kinds]
-    classes = ["tier=virtual", "via=" + via, "retries=%d" % retries]
+    frs = case.get("fr")
+    scripts = [script_for(k, T, frs[i] if frs else None) for i, k in enumerate(kinds)]
+    for sc in scripts:
+        if sc.get("empty") and sc["kind"] == "reply":
+            sc["kind"] = "empty"
+    classes = ["tier=virtual", "via=" + via, "retries=%d" % retries] + (["generated_delays"] if frs else [])
     attempts_model = 0
     for k in kinds:
         attempts_model += 1
@@ -137,7 +152,7 @@ def run_virtual_case(case) -> Result:
     if out[0] == "deadlock":
         return bad("the call can never complete: %s" % out[1])
     want_reply = REPLY if via != "client" else None
-    acc = acceptable(retries, T, kinds, want_reply)
+    acc = acceptable(retries, T, kinds, want_reply, frs)
     if out[0] == "ok":
         val = out[1]
         if via == "client":
@@ -185,7 +200,7 @@ def run_virtual_case(case) -> Result:
                 i, "returned" if out[0] == "ok" else "raised"))
     if errors:
         return bad("exception in an event-loop callback: %s" % errors[0])
-    return Result(None, nontrivial, classes, key=(retries, T, tuple(kinds), via))
+    return Result(None, nontrivial, classes, key=(retries, T, tuple(kinds), via, tuple(frs or ())))
 
 
 # --------------------------------------------------------------------------
@@ -359,6 +374,15 @@ class _Loop:
 
 
 @st.composite
+def virtual_cases(draw):
+    r = draw(st.integers(1, 6))
+    return dict(tier="virtual", retries=r, timeout=draw(st.sampled_from([0.5, 1, 2.5, 6, 0.05, 30, 7.25])),
+                kinds=draw(st.lists(st.sampled_from(KINDS), min_size=r, max_size=r)),
+                fr=draw(st.lists(st.sampled_from([0.001, 0.25, 0.5, 0.9, 0.999, 1.001, 1.5, 3.0]), min_size=r, max_size=r)),
+                via=draw(st.sampled_from(["send_udp", "send_udp", "client"])))
+
+
+@st.composite
 def loop_cases(draw):
     r = draw(st.integers(1, 3))
     return dict(tier="loopback", retries=r, timeout=draw(st.sampled_from([0.03, 0.05, 0.08])),
@@ -375,6 +399,9 @@ def units(tier, seed):
             us.append(Unit("virtual-r%d-%d" % (r, k), enumeration_unit,
                            cases=_Seqs(r, [0.5, 1, 2.5, 6], ["send_udp", "client"], k, shards),
                            label="virtual-r%d-%d" % (r, k), sample_every=199))
+    for sh in range(2 if tier == "quick" else 8):
+        us.append(Unit("virtual-hyp-%d" % sh, hypothesis_unit, strategy=virtual_cases(), examples=300 if tier == "quick" else 5000,
+                       seed=shard_seed(seed, 40 + sh), label="virtual-hyp-%d" % sh))
     us.append(Unit("loopback-plans", enumeration_unit, cases=_Loop(LOOPBACK_PLANS, 0.05, 3), label="loopback-plans",
                    exhaustive=False, stop_after=3))
     n = 4 if tier == "quick" else 30
